@@ -114,6 +114,10 @@ def build(rng, case):
     return a
 
 
+KEYWORD_COMMENTS = {"Masses": "  # g/mol", "Atoms": " # %s", "Pair Coeffs": " # lj/cut", "Bond Coeffs": " # harmonic", "Angle Coeffs": " # harmonic",
+                    "Dihedral Coeffs": "   # harmonic", "Improper Coeffs": " # harmonic", "Bonds": " # i j", "Angles": " #", "Dihedrals": "  # i j k l", "Impropers": " # i j k l"}
+
+
 def split_coeff(s):
     s = str(s)
     if "#" in s:
@@ -346,7 +350,9 @@ def run_case(case, ctx):
             raise
         fail("reading the file from a stream that cannot seek raised %s: %s" % (type(e).__name__, str(e)[:120]), "pipe_raises")
     for vname, vt in (("CRLF line ends", t1.replace("\n", "\r\n")), ("tabs between columns", "\n".join((l.replace("   ", "\t").replace("  ", "\t") if (l[:1].isspace() or l[:1].isdigit()) and "#" not in l else l) for l in t1.split("\n"))),
-                      ("trailing blanks", "\n".join(l + "  " if l.strip() else l for l in t1.split("\n")))):
+                      ("trailing blanks", "\n".join(l + "  " if l.strip() else l for l in t1.split("\n"))),
+                      # as LAMMPS' own write_data names the styles behind the section keywords: "Atoms # full", "Pair Coeffs # lj/cut"
+                      ("styles named behind the section keywords", "\n".join((l + KEYWORD_COMMENTS[l.strip()].replace("%s", style)) if l.strip() in KEYWORD_COMMENTS else l for l in t1.split("\n")))):
         try:
             bv = Atoms_load_text(vt, style)
             compare_loaded(bv, a, style, lambda m, c: fail("file with %s: %s" % (vname, m), c), what="read")
